@@ -127,6 +127,9 @@ def run(c: Check):
         raise Undecided("plain UDP: fewer than 6 distinct limits exercised")
     if not any(e["pad"] for e in allev) or not any(e["ka"] for e in allev):
         raise Undecided("no padded / no keep-alive reply seen at all")
+    kaown = [e for e in ev if e.get("hopt") == "v0ka" and e["p"] in ("dns-tcp", "dot")]
+    if len(kaown) < 10 or not any(e["full"] - 65535 in (-1, 0, 1, 2) for e in kaown if e.get("full", -1) >= 0):
+        raise Undecided("handler responses that bring their own keep-alive option: %d cases, none at the 64 KiB boundary" % len(kaown))
     for e in ev2:
         # controls: a tiny answer to a plain query can only get lost in the laboratory
         if not e["sent"] and e["hlen"] <= 300 and e["req"]["nsidlen"] <= 4:
